@@ -2,6 +2,7 @@ import RF.Model.Proto
 import RF.Model.Lists
 import RF.Model.ListsRc
 import RF.Model.ListsItemize
+import RF.Model.ListsStructLit
 /-!
 Line-protocol operations for the list machinery (`src/lists.rs`, model `RF/Model/Lists.lean`).
 
@@ -33,6 +34,13 @@ Operations
   lists.extract_post <post> <comment_end> <sep> <is_last>  -> optstring | panic   `extract_post_comment`
   lists.extract_pre <pre>                            -> <optstring>:<style> | panic   `extract_pre_comment`
   lists.extra_newline <post> <comment_end>           -> 0|1|panic          `has_extra_newline`
+  lists.sl_shape <w> <b> <a> <off> <prefix_width> <suffix_width> <indent_style v|b> <tab_spaces> <max_width> <struct_lit_width>
+                                                     -> err:<w> | <h_shape or none>/<v_shape>     `struct_lit_shape`
+  lists.sl_tactic <h_shape or none> <indent_style> <struct_lit_single_line> <items>   -> dtactic   `struct_lit_tactic`
+  lists.shape_for_tactic <dtactic> <h_shape or none> <v_shape>   -> shape | panic                 `shape_for_tactic`
+  lists.sl_formatting <shape> <dtactic> <indent_style> <trailing_comma:sept> <force_no_trailing_comma>
+        -> <dtactic>|<separator>|<sept>|<place>|<shape>|<ends_with_newline>|<preserve_newline>|<nested>|<align_comments>
+        shapes are `w:b:a:off`
 ORACLES (judge the output of the real code)
   lists.oracle.gaps <term> <first_pre> <src> <items> -> ok | bad:<k>   every gap's comments are handed on (firstBadGap)
   lists.oracle.content <items> <fmt> <out>  -> ok | bad:<expected content>   squeeze out = contentSpec
@@ -145,8 +153,64 @@ def decSrcItem (s : String) : Option SourceItem :=
 def decSrc (s : String) : Option (List SourceItem) :=
   if s == "_" then some [] else (s.splitOn ";").mapM decSrcItem
 
+def decShape (s : String) : Option Shape :=
+  match (s.splitOn ":").mapM String.toNat? with
+  | some [w, b, a, o] => some ⟨w, ⟨b, a⟩, o⟩
+  | _ => none
+
+def decOptShape (s : String) : Option (Option Shape) :=
+  if s == "none" then some none else (decShape s).map some
+
+def encShapeC (s : Shape) : String :=
+  s!"{s.width}:{s.indent.block_indent}:{s.indent.alignment}:{s.offset}"
+
+def decIndentStyle : String → Option IndentStyle
+  | "v" => some .visual | "b" => some .block | _ => none
+
+def encSepT : SeparatorTactic → String
+  | .always => "a" | .never => "n" | .vertical => "v"
+
+def encB (b : Bool) : String := if b then "1" else "0"
+
 def handle (op : String) (args : List String) : Option String :=
   match op, args with
+  | "lists.sl_shape", [w, b, a, off, pw, sw, st, ts, mw, slw] => some <| (do
+      let w ← w.toNat?
+      let b ← b.toNat?
+      let a ← a.toNat?
+      let off ← off.toNat?
+      let pw ← pw.toNat?
+      let sw ← sw.toNat?
+      let st ← decIndentStyle st
+      let ts ← ts.toNat?
+      let mw ← mw.toNat?
+      let slw ← slw.toNat?
+      pure (match structLitShape ⟨w, ⟨b, a⟩, off⟩ ⟨st, ts, mw, slw, false, .vertical⟩ pw sw with
+        | .error e => s!"err:{e.configured_width}"
+        | .ok (h, v) => (match h with | some h => encShapeC h | none => "none") ++ "/" ++ encShapeC v)).getD "?"
+  | "lists.sl_tactic", [h, st, sl, items] => some <| (do
+      let h ← decOptShape h
+      let st ← decIndentStyle st
+      let sl ← decBool sl
+      let items ← decItems items
+      pure (encDTactic (structLitTactic h ⟨st, 4, 100, 18, sl, .vertical⟩ items))).getD "?"
+  | "lists.shape_for_tactic", [t, h, v] => some <| (do
+      let t ← decDTactic t
+      let h ← decOptShape h
+      let v ← decShape v
+      pure (match shapeForTactic t h v with
+        | some s => encShapeC s
+        | none => "panic")).getD "?"
+  | "lists.sl_formatting", [sh, t, st, tc, force] => some <| (do
+      let sh ← decShape sh
+      let t ← decDTactic t
+      let st ← decIndentStyle st
+      let tc ← decSepT tc
+      let force ← decBool force
+      let f := structLitFormatting sh t ⟨st, 4, 100, 18, false, tc⟩ force ⟨false, 4, 100, 80⟩ false
+      pure (String.intercalate "|" [encDTactic f.tactic, encChars f.separator, encSepT f.trailingSeparator,
+        (match f.separatorPlace with | .front => "f" | .back => "b"), encShapeC f.shape,
+        encB f.endsWithNewline, encB f.preserveNewline, encB f.nested, encB f.alignComments])).getD "?"
   | "lists.itemize", [sep, term, ll, pre, src] => some <| (do
       let sep ← decChars sep
       let term ← decChars term
